@@ -535,15 +535,18 @@ def run(chk, repo, tier):
     r4(chk, repo)
     r5(chk, repo, models)
     r7(chk, repo, models)
+    r8(chk, repo, models)
 
 
 # --------------------------------------------------------------------------- R7
-def r7(chk, repo, models):
+def r7(chk, repo, models, rule="R7", only=None, min_decided=100):
     """Every output of an explicit component is completely written by compute()."""
-    chk.rule("R7", "compute() writes every declared output completely (plain stores whose regions cover the whole array, under every option valuation): an entry that compute never assigns keeps its initial value or the value a solver / user / previous run left there", min_decided=100)
+    chk.rule(rule, "compute() writes every declared output completely (plain stores whose regions cover the whole array, under every option valuation): an entry that compute never assigns keeps its initial value or the value a solver / user / previous run left there", min_decided=min_decided)
     for m in models:
         c = m.cls
         if c.name in POSTPROCESSING or c.name in NEVER_INSTANTIATED or c.kind != "explicit":
+            continue
+        if only is not None and c.name not in only:
             continue
         for run in m.runs.get("compute", []):
             if run.final is None:
@@ -564,21 +567,26 @@ def r7(chk, repo, models):
                 key = "%s.%s %s" % (c.name, norm_name(on), sig_txt(run.sigma))
                 if not evs:
                     # not stored in this valuation at all: is it stored in some valuation?  (loop templates may differ)
-                    chk.info("R7", key, c.where, "declared output never stored by compute under this valuation: it keeps its declared value (a constant, not a history dependence)")
+                    chk.info(rule, key, c.where, "declared output never stored by compute under this valuation: it keeps its declared value (a constant, not a history dependence)")
                     continue
                 plain = []
+                masked = []
                 for e in evs:
                     # a store through a mask computed from the data (x[abs(x) < c] = 0) guarantees no entry
                     svs_ = e.d.get("sub_vals") or ()
-                    if svs_ and any(v_.kind in ("bool", "arr") and any(str(d_).startswith(("in:", "out:")) for d_ in v_.dep) and any(op_ in (e.d.get("subs") or ("",))[0] for op_ in ("<", ">", "==", "!=")) for v_ in svs_):
+                    if svs_ and any(v_.kind in ("bool", "arr") and any(str(d_).startswith(("in:", "out:")) for d_ in v_.dep) and (v_.kind == "bool" or any(op_ in (e.d.get("subs") or ("",))[0] for op_ in ("<", ">", "==", "!="))) for v_ in svs_):
+                        masked.append(e)
                         continue
                     if e.d.get("op") == "=" or (e.d.get("op") in KILL_MULT and is_zero_val(e.d.get("val"))):
                         region = e.d.get("region") if e.d.get("view") == "whole" else ("whole" if (e.d.get("region") == "whole" and e.d.get("view") in ("whole", "reshape")) else None)
                         if e.d.get("view") not in ("whole", "reshape") and region is None:
                             region = None
                         plain.append((e, region))
+                if not plain and masked:
+                    chk.violation(rule, key, where(c, masked[0].lineno), "outputs[%r] is assigned only through a mask computed from the data (%s): the entries outside the mask keep the value of the previous evaluation" % (on, ",".join(masked[0].d.get("subs") or ())))
+                    continue
                 if not plain:
-                    chk.violation("R7", key, where(c, evs[0].lineno), "compute only accumulates into outputs[%r] (%s) and never assigns it" % (on, evs[0].d.get("op")))
+                    chk.violation(rule, key, where(c, evs[0].lineno), "compute only accumulates into outputs[%r] (%s) and never assigns it" % (on, evs[0].d.get("op")))
                     continue
                 shape = m.shape_of(("out", evs[0].d["cell"][1]), run.sigma)
                 if any(r_ is None for _, r_ in plain):
@@ -587,11 +595,51 @@ def r7(chk, repo, models):
                 else:
                     res = covered_under("whole", plain, shape, frozenset(), 0)
                 if res == "covered":
-                    chk.ok("R7", key, c.where, "fully written")
+                    chk.ok(rule, key, c.where, "fully written")
                 elif res == "uncovered":
-                    chk.violation("R7", key, where(c, plain[0][0].lineno), "the plain stores to outputs[%r] (%s) provably leave part of the array unwritten: those entries keep whatever was there before (initial value, a solver's guess, the previous evaluation)" % (on, sorted({",".join(e.d.get("subs") or ()) for e, _ in plain})))
+                    chk.violation(rule, key, where(c, plain[0][0].lineno), "the plain stores to outputs[%r] (%s) provably leave part of the array unwritten: those entries keep whatever was there before (initial value, a solver's guess, the previous evaluation)" % (on, sorted({",".join(e.d.get("subs") or ()) for e, _ in plain})))
                 else:
-                    chk.undecided("R7", key, c.where, "coverage of the whole array by %s not decided" % sorted({",".join(e.d.get("subs") or ()) for e, _ in plain})[:4])
+                    chk.undecided(rule, key, c.where, "coverage of the whole array by %s not decided" % sorted({",".join(e.d.get("subs") or ()) for e, _ in plain})[:4])
+
+
+# --------------------------------------------------------------------------- R8
+def r8(chk, repo, models, rule="R8"):
+    """A Jacobian block written under a condition on the inputs is written on the other branch too."""
+    chk.rule(rule, "in compute_partials / linearize, a partials block that is assigned under a condition on the input values is assigned (or reset) on every other input-dependent path of the same call as well: partials storage persists between linearisations, so a block skipped on one branch keeps the Jacobian of the previously linearised point", min_decided=10)
+    for m in models:
+        c = m.cls
+        if c.name in POSTPROCESSING or c.name in NEVER_INSTANTIATED:
+            continue
+        for mname in ("compute_partials", "linearize"):
+            for run in m.runs.get(mname, []):
+                if run.final is None:
+                    continue
+                stores = {}
+                for e in run.events:
+                    cell = e.d.get("cell") if e.kind == "store" else None
+                    if cell and cell[0] == "partials" and len(cell) == 3 and "?" not in cell[1:]:
+                        stores.setdefault(tuple(cell[1:]), []).append(e)
+                for (of, wrt), evs in sorted(stores.items(), key=lambda kv: str(kv[0])):
+                    key = "%s.%s d(%s)/d(%s) %s" % (c.name, mname, norm_name(of), norm_name(wrt), sig_txt(run.sigma))
+                    plain = []
+                    for e in evs:
+                        if e.d.get("op") == "=" or (e.d.get("op") in KILL_MULT and is_zero_val(e.d.get("val"))):
+                            region = e.d.get("region") if e.d.get("view") == "whole" else ("whole" if (e.d.get("region") == "whole" and e.d.get("view") in ("whole", "reshape")) else None)
+                            plain.append((e, region))
+                    cond = [e for e, _ in plain if e.preds]
+                    if not cond:
+                        chk.ok(rule, key, c.where, "no store under an input-valued condition")
+                        continue
+                    # only whole-block questions: is there, on every path, some plain store to the block?
+                    whole = [(e, "whole") for e, _ in plain]
+                    res = covered_under("whole", whole, None, frozenset(), 0)
+                    if res == "covered":
+                        chk.ok(rule, key, c.where, "assigned or reset on every input-dependent path")
+                    elif res == "uncovered":
+                        e0 = cond[0]
+                        chk.violation(rule, key, where(c, e0.lineno), "partials[%r, %r] is assigned only under the input-valued condition(s) %s and neither reset before nor assigned on the other branch: on that branch the block keeps the Jacobian of the previously linearised point" % (of, wrt, sorted({"%s=%s" % (str(a)[:60], b) for e in cond for a, b, _ in e.preds})[:4]))
+                    else:
+                        chk.undecided(rule, key, c.where, "path coverage not decided")
 
 
 # --------------------------------------------------------------------------- R5
